@@ -446,6 +446,8 @@ type c03Case struct {
 	backend []c03Call
 	failSet   bool // storage starts failing plain Set writes just before Shutdown is called (size snapshot of an items-sized queue)
 	failClose bool // the storage client's Close fails (from just before Shutdown)
+	partOutcome []int // systematic split family: backend outcome keyed by the PART a call carries (index = (first item id % 100) / partSize)
+	partSize    int
 	shutCtx   int           // context handed to Shutdown: 0 live, 1 cancelled during the drain, 2 deadline, 3 already done on entry
 	shutCtxD  time.Duration // … after this long
 }
@@ -744,6 +746,75 @@ func c03Gen(c int) *c03Case {
 	return cs
 }
 
+// c03SplitN: SYSTEMATIC family "one request split into 3 parts, every mix of part outcomes" (seeded class: refCountDone.OnDone keeping
+// the first / the last / a local error only).  One request of 6 items, sending_queue::batch with max_size = min_size = 2 -> MergeSplit
+// gives 3 parts, 3 flushes sharing ONE refCountDone; the worker pool has one slot (batching forces one consumer), so the parts run one
+// after the other, in order (the finishing order cannot vary in the code as it is).  Retry: initial 100 ms x1.5 without jitter, max elapsed
+// 300 ms: a part whose calls all fail transiently is tried at +0, +100, +250 ms and then given up ("no more retries left": a FINAL failure);
+// a part that is in its first back-off when Shutdown comes ends with a SHUTDOWN error (kept by a persistent queue), and so does every
+// transient failure after the stop.  Enumerated: part outcomes {ok, transient, permanent}^3 x Shutdown {in the first back-off of the i-th
+// transient part, for each such part; after everything} = 54 schedules x queue {memory + wait_for_result: Send returns the JOINED error,
+// i.e. enqueue_failed counts the request iff SOME part failed; persistent: the request stays stored iff SOME part ended with a shutdown
+// error, whatever the other parts did} = 108 cases.
+const c03SplitCases = 108
+
+func c03SplitN(k int) *c03Case {
+	ms := time.Millisecond
+	persistent := k/54 == 1
+	j := k % 54
+	var outs [3]int
+	pos := -1 // index of the transient part interrupted by the shutdown; -1 = Shutdown after everything
+	n := 0
+	found := false
+	for o := 0; o < 27 && !found; o++ {
+		outs = [3]int{o % 3, (o / 3) % 3, (o / 9) % 3} // 0 ok, 1 transient, 2 permanent
+		var trans []int
+		for i, x := range outs {
+			if x == 1 {
+				trans = append(trans, i)
+			}
+		}
+		for p := -1; p < len(trans); p++ {
+			if n == j {
+				if p >= 0 {
+					pos = trans[p]
+				}
+				found = true
+				break
+			}
+			n++
+		}
+	}
+	cs := &c03Case{partSize: 2, partOutcome: outs[:]}
+	cs.cfg = c03Cfg{signal: c03SigLogs, wrap: true, queue: true, persistent: persistent, wfr: !persistent, sizer: "items", capacity: 10000,
+		consumers: 1, batch: 1, flushTO: time.Hour, minSize: 2, maxSize: 2, retry: true, initial: 100 * ms, maxElapsed: 300 * ms}
+	sd := 5 * time.Second
+	if pos >= 0 {
+		// every transient part before `pos` takes 250 ms (tries at +0, +100, +250), ok / permanent parts take no time
+		start := time.Duration(0)
+		for i := 0; i < pos; i++ {
+			if outs[i] == 1 {
+				start += 250 * ms
+			}
+		}
+		sd = start + 50*ms + 137*time.Microsecond
+	}
+	cs.acts = []c03Act{{at: 0, rid: 1, n: 6}, {at: sd, shutdown: true}}
+	return cs
+}
+
+// c03Systematic: the systematic families are spread over the generated index range (one every `period` indices after the corpus), so
+// that no earlier case index changes its meaning and `VERIF_REPLAY_CASE` still replays one case alone
+func c03Systematic(c, corpusLen, period int) *c03Case {
+	if c < corpusLen || (c-corpusLen)%period != period/2 {
+		return nil
+	}
+	if k := (c - corpusLen) / period; k < c03SplitCases {
+		return c03SplitN(k)
+	}
+	return nil
+}
+
 // corpus: hand-made schedules run first (case indices 0..len-1)
 func c03Corpus() []*c03Case {
 	ms := time.Millisecond
@@ -905,6 +976,10 @@ func c03Exec(cs *c03Case, set exporter.Settings, probe func(run *c03Run)) *c03Ru
 		var call c03Call
 		if k < len(cs.backend) {
 			call = cs.backend[k]
+		}
+		if cs.partOutcome != nil && len(ids) > 0 {
+			// outcome decided by WHICH PART of the split request the call carries, however many calls came before
+			call = c03Call{outcome: cs.partOutcome[((ids[0]%100)/cs.partSize)%len(cs.partOutcome)]}
 		}
 		var err error
 		if call.dur > 0 {
@@ -1609,7 +1684,7 @@ func TestVerifC03Shutdown(t *testing.T) {
 			var cs *c03Case
 			if c < len(corpus) {
 				cs = corpus[c]
-			} else {
+			} else if cs = c03Systematic(c, len(corpus), 50); cs == nil {
 				cs = c03Gen(c)
 			}
 			run := c03Exec(cs, exportertest.NewNopSettings(exportertest.NopType), nil)
